@@ -79,7 +79,13 @@ _DIST = ("internal/distribute/rest", "zz_verif_replay_test.go", "replay/distribu
 
 _READ = ("internal/http", "zz_verif_replay_test.go", "replay/http_replay_test.go", "TestVerifReplayReadAPI", lambda m: {"any": True})
 
+_TILE = ("internal/client", "zz_verif_replay_test.go", "replay/sumdbclient_replay_test.go", "TestVerifReplayTilePath", lambda m: {"Offset": int(m.get("offset", 1000)) if isinstance(m.get("offset", 1000), int) and 0 <= m.get("offset", 1000) < 2**62 else 1000})
+
 CONCRETISERS = {
+    "client.SumDBClient).tilePath": _TILE,
+    "client.SumDBClient).TileData": _TILE,
+    "client.SumDBClient).FullLeavesAtOffset": _TILE,
+    "client.SumDBClient).PartialLeavesAtOffset": _TILE,
     "http.Server).getCheckpoint": _READ,
     "http.Server).getLogs": _READ,
     "http.httpForCode": _READ,
